@@ -29,6 +29,11 @@ def parseStep (j : Json) : Except String Step := do
       return (← q[0]!.getStr?, ← parseVal q[1]!)
     return .new (← getNat j "cls") vals
   | "set" => return .set (← getNat j "o") (← getStr j "p") (← parseVal (← j.getObjVal? "v"))
+  | "update" =>
+    let kvs ← (← getArr j "kvs").toList.mapM fun kv => do
+      let q ← kv.getArr?
+      return (← q[0]!.getStr?, ← parseVal q[1]!)
+    return .update (← getNat j "o") kvs
   | o => throw s!"unknown step {o}"
 
 def jVal : Val → Json
@@ -101,6 +106,7 @@ def handle (req : Json) : Except String Json := do
     (if mSteps.any (fun s => s.2.err.isSome) then ["step:error"] else []) ++
     (if impl == model then ["json:model-equals-impl"] else ["json:model-differs"]) ++
     (if mSteps.any (fun s => s.2.raised) then ["step:method-raised"] else []) ++
+    (if steps.any (fun | .update _ _ => true | _ => false) then ["step:update"] else []) ++
     (if mSteps.any (fun s => !s.2.calls.isEmpty) then ["fired"] else [])
   return Json.mkObj [("model", model), ("applicable", Json.bool wf),
     ("spec_impl", optJ sImpl), ("spec_model", optJ sModel), ("checked_steps", toJson nImpl),
